@@ -19,6 +19,7 @@
 #include <blocc/complex.h>
 #include <blocc/functor_manager.h>
 #include <blocc/plugin_manager.h>
+#include <blocc/bloc_capi.h>
 #include "vjson.h"
 
 #include <cmath>
@@ -406,6 +407,131 @@ static void cleanTmp() {
   g_tmpdir.clear();
 }
 
+// ---- C API handle machine (C15): only functions of bloc_capi.h are used on these handles ---------
+struct CH { std::map<std::string, bloc_context*> ctx; std::map<std::string, int> ctxfd; std::map<std::string, off_t> ctxrd;
+            std::map<std::string, bloc_value*> val;      /* caller owned */
+            std::map<std::string, bloc_value*> lib;      /* library owned */
+            std::map<std::string, bloc_executable*> exe; std::map<std::string, bloc_expression*> expr; };
+static CH g_ch;
+
+// a value seen ONLY through the typed accessors of the C API; also which accessors accepted it
+static std::string capiValue(bloc_value* v, int depth = 0) {
+  if (!v) return "{\"major\":-1,\"ndim\":0,\"isnull\":false,\"nacc\":0,\"datanull\":false,\"acc\":\"nullptr\",\"val\":{\"t\":\"nullptr\"}}";
+  bloc_type ty = bloc_value_type(v);
+  bool isnull = bloc_value_isnull(v) != bloc_false;
+  bloc_bool* pb = nullptr; int64_t* pi = nullptr; double* pd = nullptr; const char* ps = nullptr; const char* pr = nullptr; unsigned rl = 0;
+  bloc_array* pa = nullptr; bloc_row* pw = nullptr; bloc_pair* pp = nullptr;
+  bool ab = bloc_boolean(v, &pb), ai = bloc_integer(v, &pi), ad = bloc_numeric(v, &pd), as = bloc_literal(v, &ps), ar = bloc_tabchar(v, &pr, &rl),
+       at = bloc_table(v, &pa), aw = bloc_tuple(v, &pw), ac = bloc_imaginary(v, &pp);
+  int nacc = ab + ai + ad + as + ar + at + aw + ac;
+  std::string o = "{\"major\":" + std::to_string((int)ty.major) + ",\"ndim\":" + std::to_string(ty.ndim) + ",\"isnull\":" + (isnull ? "true" : "false") + ",\"nacc\":" + std::to_string(nacc);
+  /* for a null value the matching accessor succeeds and yields NULL data */
+  /* (an empty byte array has no data to point to: NULL with length 0 is not a null value) */
+  bool datanull = (ab && !pb) || (ai && !pi) || (ad && !pd) || (as && !ps) || (ar && !pr && (isnull || rl != 0)) || (at && !pa) || (aw && !pw) || (ac && !pp);
+  const char* acc = ab ? "bool" : ai ? "int" : ad ? "dec" : as ? "str" : ar ? "raw" : at ? "tab" : aw ? "row" : ac ? "cpx" : "none";
+  o += std::string(",\"datanull\":") + (datanull ? "true" : "false") + ",\"acc\":\"" + acc + "\",\"val\":";
+  if (isnull) o += "{\"t\":\"null\"}";
+  else if (ab && pb) o += std::string("{\"t\":\"bool\",\"v\":") + (*pb ? "true" : "false") + "}";
+  else if (ai && pi) o += intJson(*pi);
+  else if (ad && pd) o += decJson(*pd);
+  else if (as && ps) o += strJson("str", std::string(ps));
+  else if (ar && (pr || rl == 0)) o += "{\"t\":\"raw\",\"b\":" + vj::bytes(pr ? pr : "", rl) + "}";
+  else if (at && pa && depth < 4) {
+    unsigned n = bloc_array_size(pa); o += "{\"t\":\"tab\",\"v\":[";
+    for (unsigned i = 0; i < n; ++i) { bloc_value* it = nullptr; if (i) o += ','; if (bloc_array_item(pa, i, &it)) o += capiValue(it, depth + 1); else o += "{\"t\":\"NOITEM\"}"; }
+    bloc_value* beyond = nullptr; bool over = bloc_array_item(pa, n, &beyond);
+    o += std::string("],\"over\":") + (over ? "true" : "false") + "}";
+  }
+  else if (aw && pw && depth < 4) {
+    unsigned n = bloc_tuple_size(pw); o += "{\"t\":\"tup\",\"v\":[";
+    for (unsigned i = 0; i < n; ++i) { bloc_value* it = nullptr; if (i) o += ','; if (bloc_tuple_item(pw, i, &it)) o += capiValue(it, depth + 1); else o += "{\"t\":\"NOITEM\"}"; }
+    o += "]}";
+  }
+  else o += "{\"t\":\"other\"}";
+  return o + "}";
+}
+static std::string capiOut(const std::string& c) {
+  bloc_context* cx = g_ch.ctx[c];
+  if (!cx) return "";
+  FILE* f = bloc_ctx_out(cx); if (f) fflush(f);
+  int fd = g_ch.ctxfd[c]; off_t end = lseek(fd, 0, SEEK_END); std::string s;
+  off_t& rd = g_ch.ctxrd[c];
+  if (end > rd) { s.resize(end - rd); if (pread(fd, &s[0], s.size(), rd) < 0) s.clear(); rd = end; }
+  return s;
+}
+static std::string doCapi(const vj::Val& st) {
+  std::string a = st.str("a"), c = st.str("c"), h = st.str("h");
+  std::string o = "{\"op\":\"capi\",\"a\":" + vj::q(a) + ",\"oc\":\"ok\"";
+  if (a == "ctx_new") { int fd = memfd_create("cv", 0); g_ch.ctxfd[c] = fd; g_ch.ctxrd[c] = 0; g_ch.ctx[c] = bloc_create_context(fd, fd); o += std::string(",\"ok\":") + (g_ch.ctx[c] ? "true" : "false"); }
+  else if (a == "ctx_clone") { int fd = memfd_create("cv", 0); g_ch.ctxfd[c] = fd; g_ch.ctxrd[c] = 0; g_ch.ctx[c] = bloc_clone_context2(g_ch.ctx[st.str("g")], fd, fd); o += std::string(",\"ok\":") + (g_ch.ctx[c] ? "true" : "false"); }
+  else if (a == "ctx_free") { bloc_free_context(g_ch.ctx[c]); g_ch.ctx.erase(c); close(g_ch.ctxfd[c]); }
+  else if (a == "ctx_purge") { bloc_ctx_purge(g_ch.ctx[c]); }
+  else if (a == "val_new") {
+    std::string k = st.str("kind"); bloc_value* v = nullptr;
+    if (k == "int") v = bloc_create_integer(st.num("iv"));
+    else if (k == "dec") v = bloc_create_numeric((double)st.num("iv") / 2.0);
+    else if (k == "str") v = bloc_create_literal(st.str("sv").c_str());
+    else if (k == "bool") v = bloc_create_boolean(st.num("iv") ? bloc_true : bloc_false);
+    else if (k == "raw") { std::string b; if (const vj::Val* bb = st.get("bv")) for (auto& x : bb->a) b += (char)x->n; v = bloc_create_tabchar(b.data(), (unsigned)b.size()); }
+    else if (k == "null_bool") v = bloc_create_null(BOOLEAN);
+    else if (k == "null_int") v = bloc_create_null(INTEGER);
+    else if (k == "null_dec") v = bloc_create_null(NUMERIC);
+    else if (k == "null_str") v = bloc_create_null(LITERAL);
+    else if (k == "null_raw") v = bloc_create_null(TABCHAR);
+    else if (k == "null_row") v = bloc_create_null(ROWTYPE);
+    else if (k == "null_undef") v = bloc_create_null(NO_TYPE);
+    else if (k == "str_from_null") v = bloc_create_literal(nullptr);
+    g_ch.val[h] = v; o += ",\"val\":" + capiValue(v);
+  }
+  else if (a == "val_free") { bloc_free_value(g_ch.val[h]); g_ch.val.erase(h); }
+  else if (a == "val_null") { bloc_assign_null(g_ch.val[h]); o += ",\"val\":" + capiValue(g_ch.val[h]); }
+  else if (a == "val_setstr") { bloc_bool r = bloc_assign_literal(g_ch.val[h], st.str("sv").c_str()); o += std::string(",\"ret\":") + (r ? "true" : "false") + ",\"val\":" + capiValue(g_ch.val[h]); }
+  else if (a == "store") {
+    bloc_value* v = g_ch.val[h];
+    bloc_symbol* sym = bloc_ctx_register_symbol(g_ch.ctx[c], st.str("n").c_str(), bloc_value_type(v));
+    bloc_bool r = sym ? bloc_ctx_store_variable(g_ch.ctx[c], sym, v) : bloc_false;
+    o += std::string(",\"sym\":") + (sym ? "true" : "false") + ",\"ret\":" + (r ? "true" : "false") + ",\"errno\":" + std::to_string(bloc_errno());
+  }
+  else if (a == "load") {
+    bloc_symbol* sym = bloc_ctx_find_symbol(g_ch.ctx[c], st.str("n").c_str());
+    bloc_value* v = sym ? bloc_ctx_load_variable(g_ch.ctx[c], sym) : nullptr;
+    g_ch.lib[h] = v;
+    o += std::string(",\"sym\":") + (sym ? "true" : "false") + ",\"val\":" + capiValue(v);
+  }
+  else if (a == "read_lib") { o += ",\"val\":" + capiValue(g_ch.lib[h]); }
+  else if (a == "read_val") { o += ",\"val\":" + capiValue(g_ch.val[h]); }
+  else if (a == "parse_exec") {
+    bloc_parsing_position pos; memset(&pos, 0, sizeof pos);
+    bloc_executable* x = bloc_parse_executable(g_ch.ctx[c], st.str("text").c_str(), &pos);
+    if (x) g_ch.exe[h] = x;
+    o += std::string(",\"ok\":") + (x ? "true" : "false") + ",\"errno\":" + std::to_string(x ? 0 : bloc_errno()) + ",\"errstr\":" + vj::q(x ? "" : (bloc_strerror() ? bloc_strerror() : "<null>"));
+  }
+  else if (a == "run" || a == "run2") {
+    bloc_bool r = (a == "run") ? bloc_execute(g_ch.exe[h]) : bloc_execute2(g_ch.ctx[c], g_ch.exe[h]);
+    o += std::string(",\"ret\":") + (r ? "true" : "false") + ",\"errno\":" + std::to_string(r ? 0 : bloc_errno()) + ",\"errstr\":" + vj::q(r ? "" : (bloc_strerror() ? bloc_strerror() : "<null>")) + ",\"out\":" + vj::q(capiOut(c));
+  }
+  else if (a == "exec_free") { bloc_free_executable(g_ch.exe[h]); g_ch.exe.erase(h); }
+  else if (a == "parse_expr") {
+    bloc_expression* e = bloc_parse_expression(g_ch.ctx[c], st.str("text").c_str());
+    if (e) g_ch.expr[h] = e;
+    o += std::string(",\"ok\":") + (e ? "true" : "false") + ",\"errno\":" + std::to_string(e ? 0 : bloc_errno()) + ",\"errstr\":" + vj::q(e ? "" : (bloc_strerror() ? bloc_strerror() : "<null>"));
+    if (e) { bloc_type t = bloc_expression_type(g_ch.ctx[c], e); o += ",\"major\":" + std::to_string((int)t.major) + ",\"ndim\":" + std::to_string(t.ndim); }
+  }
+  else if (a == "eval") {
+    bloc_value* v = bloc_evaluate_expression(g_ch.ctx[c], g_ch.expr[st.str("g")]);
+    g_ch.lib[h] = v;
+    o += std::string(",\"ok\":") + (v ? "true" : "false") + ",\"errno\":" + std::to_string(v ? 0 : bloc_errno()) + ",\"errstr\":" + vj::q(v ? "" : (bloc_strerror() ? bloc_strerror() : "<null>")) + ",\"val\":" + capiValue(v);
+  }
+  else if (a == "expr_free") { bloc_free_expression(g_ch.expr[h]); g_ch.expr.erase(h); }
+  else if (a == "drop") { bloc_value* v = bloc_drop_returned(g_ch.ctx[c]); if (v) g_ch.val[h] = v; o += std::string(",\"got\":") + (v ? "true" : "false") + ",\"val\":" + capiValue(v); }
+  else if (a == "reset_stop") { bloc_reset_stop(g_ch.ctx[c]); }
+  else if (a == "break") { bloc_break(g_ch.ctx[c]); }
+  else if (a == "purge_wm") { bloc_ctx_purge_working_mem(g_ch.ctx[c]); }
+  else o += ",\"oc\":\"badop\"";
+  return o + "}";
+}
+static void capiForget() { g_ch = CH(); }
+
 // environment-specific paths in generated texts: @MOD:name@ -> path of the module library, @INC@ -> an include file
 static std::string subst(std::string t) {
   const char* mods = getenv("BLOC_MODULES");
@@ -424,6 +550,7 @@ static std::string subst(std::string t) {
 
 static std::string doStep(const vj::Val& st) {
   std::string op = st.str("op");
+  if (op == "capi") return doCapi(st);
   if (op == "sqlitedump") {
     /* independent reader of the database file: the C library of SQLite itself, not the BLOC module */
     std::string path = subst(st.str("path"));
@@ -908,6 +1035,24 @@ static void freeAll() {
 
 extern "C" int __lsan_do_recoverable_leak_check(void) __attribute__((weak));
 
+// the allocation sites (first frame inside the library sources) of the leaks LeakSanitizer just reported
+static std::string leakSites(const std::string& errpath) {
+  std::ifstream ef(errpath); std::string l, out; bool want = false; int n = 0;
+  while (std::getline(ef, l)) {
+    if (l.find("leak of") != std::string::npos) { want = true; continue; }
+    if (want && l.find("/blocc/") != std::string::npos) {
+      size_t p = l.find(" in "); std::string site = p == std::string::npos ? l : l.substr(p + 4);
+      size_t q = site.find("/blocc/"); size_t sp = site.rfind(' ', q);
+      std::string fn = site.substr(0, sp == std::string::npos ? 0 : sp), loc = site.substr(q + 1);
+      if (fn.size() > 60) fn = fn.substr(0, 60);
+      std::string item = fn + " " + loc;
+      if (out.find(item) == std::string::npos && n < 6) { if (!out.empty()) out += " | "; out += item; ++n; }
+      want = false;
+    }
+  }
+  return out;
+}
+
 int main(int argc, char** argv) {
   if (argc < 3) { fprintf(stderr, "usage: vdrive scenarios.ndjson obs.ndjson [batch] [timeout_s]\n"); return 2; }
   std::vector<std::string> lines;
@@ -918,6 +1063,7 @@ int main(int argc, char** argv) {
   FILE* out = fopen(argv[2], "w");
   if (!out) return 2;
   std::string errpath = std::string(argv[2]) + ".stderr";
+  std::string partpath = std::string(argv[2]) + ".partial";
   size_t i = 0;
   while (i < lines.size()) {
     // shared progress cell: index of the scenario being executed
@@ -935,6 +1081,10 @@ int main(int argc, char** argv) {
         if (!jp.ok) { fprintf(out, "{\"id\":-1,\"end\":\"badjson\",\"line\":%zu}\n", k); continue; }
         long long id = sc->num("id", (long long)k);
         alarm(tmo);
+        /* sanitizer output and the observations made so far are kept per scenario, so that the parent
+           can report how far a scenario got when the process dies in it */
+        if (ftruncate(efd, 0) == 0) lseek(efd, 0, SEEK_SET);
+        FILE* part = fopen(partpath.c_str(), "w");
         std::string o = "{\"id\":" + std::to_string(id) + ",\"obs\":[";
         const vj::Val* steps = sc->get("steps");
         bool f = true;
@@ -944,17 +1094,24 @@ int main(int argc, char** argv) {
           std::string so = doStep(*st);
           so.insert(so.size() - 1, ",\"ev\":" + drainVobj());
           o += so;
+          if (part) { fputs(so.c_str(), part); fputc('\n', part); fflush(part); }
         }
+        if (part) fclose(part);
         o += "]";
         /* contexts and programs are released, then the remaining module events are collected */
         while (!g_ctx.empty()) freeCtx(g_ctx.begin()->first);
         o += ",\"evend\":" + drainVobj();
         freeAll();
+        capiForget();
         cleanTmp();
         alarm(0);
         int leaked = 0;
-        if (leakcheck && __lsan_do_recoverable_leak_check) leaked = __lsan_do_recoverable_leak_check();
-        o += std::string(",\"leak\":") + (leaked ? "true" : "false") + ",\"end\":\"ok\"}\n";
+        std::string leakat;
+        if (leakcheck && __lsan_do_recoverable_leak_check) {
+          leaked = __lsan_do_recoverable_leak_check();
+          if (leaked) leakat = leakSites(errpath);
+        }
+        o += std::string(",\"leak\":") + (leaked ? "true" : "false") + ",\"leakat\":" + vj::q(leakat) + ",\"end\":\"ok\"}\n";
         fputs(o.c_str(), out);
         fflush(out);
         prog[1] = k + 1;
@@ -977,7 +1134,7 @@ int main(int argc, char** argv) {
     std::string san;
     { std::ifstream ef(errpath); std::stringstream ss; ss << ef.rdbuf(); san = ss.str(); }
     std::string summary;
-    size_t pos = san.find("SUMMARY:");
+    size_t pos = san.rfind("SUMMARY:");
     if (pos != std::string::npos) summary = san.substr(pos, san.find('\n', pos) - pos);
     else {
       pos = san.find("runtime error:");
@@ -987,7 +1144,9 @@ int main(int argc, char** argv) {
     std::string end = "crash";
     if (WIFSIGNALED(status) && WTERMSIG(status) == SIGALRM) end = "timeout";
     std::string sig = WIFSIGNALED(status) ? std::to_string(WTERMSIG(status)) : ("exit" + std::to_string(WEXITSTATUS(status)));
-    fprintf(out, "{\"id\":%lld,\"obs\":[],\"leak\":false,\"end\":%s,\"sig\":%s,\"san\":%s}\n", id, vj::q(end).c_str(), vj::q(sig).c_str(), vj::q(summary).c_str());
+    std::string pobs;
+    { std::ifstream pf(partpath); std::string l; while (std::getline(pf, l)) if (!l.empty() && l.back() == '}') { if (!pobs.empty()) pobs += ','; pobs += l; } }
+    fprintf(out, "{\"id\":%lld,\"obs\":[%s],\"leak\":false,\"end\":%s,\"sig\":%s,\"san\":%s}\n", id, pobs.c_str(), vj::q(end).c_str(), vj::q(sig).c_str(), vj::q(summary).c_str());
     fflush(out);
     i = cur + 1;
   }
